@@ -90,6 +90,7 @@ def random_script(rng, level, size, skip, mx, n):
     sc = {"level": level, "size": size, "skip": skip, "max": mx, "steps": steps}
     if level == "icpt":
         sc["rev"] = rng.random() < 0.5                 # the options in the opposite order: the same configuration
+        sc["twin"] = rng.random() < 0.3                # a second interceptor of the same factory with traffic of its own
     if level == "icpt" and rng.random() < 0.3:          # GeneratorStreamsFilter replaces the default feedback-list test
         sc["filt"] = rng.choice(["all", "odd", "none"])
     return sc
